@@ -92,8 +92,8 @@ func coldSig(rules string, src []byte) string {
 	return fmt.Sprintf("%x", h.Sum(nil))
 }
 
-// runColdChild: rule sets in descending order, files in descending order, declarations in descending order, each
-// declaration alone on a fresh state; printed per (rule set, file) in source order of the declarations.
+// runColdChild: rule sets in descending order, files in descending order, declarations in descending order (the comments
+// first), each declaration alone on a fresh state; printed per (rule set, file) in source order of the declarations.
 func runColdChild(enc *json.Encoder, variants []hVariant, engineFor func(int, string) (*ruleguard.Engine, error), pool []*hutil.Target) {
 	for vi := len(variants) - 1; vi >= 0; vi-- {
 		e, err := engineFor(vi, "locality")
@@ -104,7 +104,14 @@ func runColdChild(enc *json.Encoder, variants []hVariant, engineFor func(int, st
 		for fi := len(pool) - 1; fi >= 0; fi-- {
 			obs := coldObs{K: "coldref", Variant: vi, File: fi, Sig: coldSig(variants[vi].rules, pool[fi].Src)}
 			decls := pool[fi].File.Decls
-			per := make([][]hReport, len(decls))
+			per := make([][]hReport, len(decls)+1)
+			if len(pool[fi].File.Comments) > 0 {
+				r, _, emsg := runOnce(e, pool[fi], commentsFile(pool[fi].File), 0, nil, -1)
+				if emsg != "" {
+					obs.Err = "run over the comments alone: " + emsg
+				}
+				per[len(decls)] = r
+			}
 			for di := len(decls) - 1; di >= 0 && obs.Err == ""; di-- {
 				r, _, emsg := runOnce(e, pool[fi], declFile(pool[fi].File, decls[di]), 0, nil, -1)
 				if emsg != "" {
